@@ -5,6 +5,7 @@ import (
 	"net"
 	"sort"
 	"strings"
+	"time"
 
 	"github.com/enbility/ship-go/api"
 	"github.com/enbility/ship-go/mdns"
@@ -317,6 +318,7 @@ func c17Main(r *hx.Run) {
 	gs := hx.GExploreAll(r, ms)
 	viol := hx.GConfirm(gs, ms)
 	hx.SetWorkerMode("s")
+	r.EnsureBudget(60 * time.Second)
 	ss := hx.ExploreAll(r, scens, false, 0)
 	viol = append(viol, hx.ConfirmViolations(ss, scens)...)
 	cov := gs.Coverage()
